@@ -23,6 +23,7 @@ import (
 	"github.com/tink-crypto/tink-go/v2/hybrid"
 	"github.com/tink-crypto/tink-go/v2/insecurecleartextkeyset"
 	"github.com/tink-crypto/tink-go/v2/jwt"
+	"github.com/tink-crypto/tink-go/v2/key"
 	"github.com/tink-crypto/tink-go/v2/keyderivation"
 	"github.com/tink-crypto/tink-go/v2/keyset"
 	"github.com/tink-crypto/tink-go/v2/mac"
@@ -36,7 +37,8 @@ import (
 // primRes records the creation and one use of a primitive made from an accepted handle.
 // kind: roundtrip (back must equal msg) | verify (consumed = the produced tag / signature / token verified,
 // under the PUBLIC half for asymmetric keys) | det (msg, back = two evaluations on one input) |
-// consume-only (a public half alone: produced = it accepted a genuine signature / it encrypted) | none.
+// consume-only (a public half alone: produced = it accepted a genuine signature / it encrypted) |
+// produce-only (no public half could be obtained to verify under) | none.
 type primRes struct {
 	Fam      string `json:"fam"`
 	Kind     string `json:"kind"`
@@ -231,8 +233,9 @@ func useFam(h *keyset.Handle, fam string, uc *useCtx) primRes {
 				return
 			}
 			r.Produced, step = true, "Public"
-			pub, err := h.Public()
-			if fail(err) {
+			pub, err := publicHalf(h)
+			if err != nil { // no public half obtainable (e.g. another key of the keyset is of an unknown type): nothing to verify under
+				r.Kind, r.Err = "produce-only", "Public: "+trunc(err.Error(), 120)
 				return
 			}
 			step = "NewVerifier"
@@ -271,8 +274,9 @@ func useFam(h *keyset.Handle, fam string, uc *useCtx) primRes {
 				return
 			}
 			r.Created, r.Msg, step = true, vt.Hex(testMsg), "Public"
-			pub, err := h.Public()
-			if fail(err) {
+			pub, err := publicHalf(h)
+			if err != nil {
+				r.Kind, r.Err = "produce-only", "Public: "+trunc(err.Error(), 120)
 				return
 			}
 			step = "NewHybridEncrypt"
@@ -331,8 +335,9 @@ func useFam(h *keyset.Handle, fam string, uc *useCtx) primRes {
 				return
 			}
 			r.Produced, r.Msg, step = true, trunc(tok, 60), "Public"
-			pub, err := h.Public()
-			if fail(err) {
+			pub, err := publicHalf(h)
+			if err != nil {
+				r.Kind, r.Err = "produce-only", "Public: "+trunc(err.Error(), 120)
 				return
 			}
 			step = "NewVerifier"
@@ -389,6 +394,36 @@ func useFam(h *keyset.Handle, fam string, uc *useCtx) primRes {
 		r.Panic, r.Where, r.Err = true, step, trunc(fmt.Sprint(v), 200)
 	}
 	return r
+}
+
+// publicHalf: the public keyset of h; when the keyset as a whole has none (some OTHER key is opaque), the
+// public half of the primary key alone - the key the producing primitive used.
+func publicHalf(h *keyset.Handle) (*keyset.Handle, error) {
+	pub, err := h.Public()
+	if err == nil {
+		return pub, nil
+	}
+	p, err2 := h.Primary()
+	if err2 != nil {
+		return nil, err
+	}
+	pk, ok := p.Key().(interface{ PublicKey() (key.Key, error) })
+	if !ok {
+		return nil, err
+	}
+	k, err2 := pk.PublicKey()
+	if err2 != nil {
+		return nil, err
+	}
+	m := keyset.NewManager()
+	id, err2 := m.AddKey(k)
+	if err2 != nil {
+		return nil, err
+	}
+	if err2 := m.SetPrimary(id); err2 != nil {
+		return nil, err
+	}
+	return m.Handle()
 }
 
 func rawJWT() *jwt.RawJWT {
